@@ -33,6 +33,15 @@ pub(crate) fn decompress(data: &[u8], expected_size: usize) -> Result<Vec<u8>> {
         &data[..std::cmp::min(16, data.len())]
     );
 
+    // The streaming exploder only handles binary-mode streams: it hits `unimplemented!()`
+    // on the ASCII-mode header byte, so reject those instead of panicking.
+    if data[0] == 1 {
+        return Err(decompression_error(
+            "PKWare",
+            "ASCII-mode streams are not supported",
+        ));
+    }
+
     // Use the implode crate for PKWare decompression in MPQ archives
     // Based on the working implementation in msierks/mpq-rust
     let mut exploder = Exploder::new(&DEFAULT_CODE_TABLE);
